@@ -72,11 +72,115 @@ MODELLED = ("ak/llparser.py: LLParser.__init__ name assertions, _create_producti
             "filter 1646-1649 (coq/C01/RunTok.v build_cfg, parse_text)")
 
 
+_DICT_MODE = {}     # repo path -> (syn_aliased, kw_aliased), filled by gen_consts / _dict_mode
+
+
+def _stored_as(expr, arg):
+    """how  self.<arg> = <expr>  of _Tokenizer.__init__ stores the caller's dict: 'alias' (the object itself when it is
+    non-empty:  arg  /  arg or {}), 'copy' (dict(arg or {}) / dict(arg) ... / {**arg} / arg.copy()), None = not recognised"""
+    import ast
+
+    def is_arg(e):
+        return isinstance(e, ast.Name) and e.id == arg
+
+    def is_empty_dict(e):
+        return (isinstance(e, ast.Dict) and not e.keys) or \
+            (isinstance(e, ast.Call) and isinstance(e.func, ast.Name) and e.func.id == "dict" and not e.args and not e.keywords)
+
+    def arg_or_empty(e):
+        return is_arg(e) or (isinstance(e, ast.BoolOp) and isinstance(e.op, ast.Or) and len(e.values) == 2
+                             and is_arg(e.values[0]) and is_empty_dict(e.values[1]))
+
+    if arg_or_empty(expr):
+        return "alias"
+    if isinstance(expr, ast.Call) and isinstance(expr.func, ast.Name) and expr.func.id == "dict" and len(expr.args) == 1 \
+            and not expr.keywords and arg_or_empty(expr.args[0]):
+        return "copy"
+    if isinstance(expr, ast.Call) and isinstance(expr.func, ast.Attribute) and expr.func.attr == "copy" and not expr.args \
+            and not expr.keywords and isinstance(expr.func.value, ast.BoolOp) and arg_or_empty(expr.func.value):
+        return "copy"
+    if isinstance(expr, ast.Dict) and expr.keys == [None] and len(expr.values) == 1 and arg_or_empty(expr.values[0]):
+        return "copy"
+    if isinstance(expr, ast.IfExp) and is_empty_dict(expr.orelse):
+        # dict(arg) if arg else {}   /   arg if arg else {}
+        inner = _stored_as(expr.body, arg)
+        if inner and (is_arg(expr.test) or (isinstance(expr.test, ast.Compare) and is_arg(expr.test.left))):
+            return inner
+    return None
+
+
+def _dict_mode(repo):
+    """(syn_aliased, kw_aliased): does _Tokenizer.__init__ keep the caller's synonyms / keywords dict object (today's code:
+    self.synonyms = synonyms or {}) or a copy of it.  Read from the source, fail closed; tokenize must read self.synonyms /
+    self.keywords and nothing else may assign them."""
+    import ast
+    import os
+    if repo in _DICT_MODE:
+        return _DICT_MODE[repo]
+    from harness.props import c04
+    src = open(os.path.join(repo, "ak", "llparser.py")).read()
+    tree = ast.parse(src)
+    tk = c04._cls(tree, "_Tokenizer")
+    init = c04._meth(tk, "__init__")
+    found = {}
+    for cls_node in ast.walk(tree):
+        if not isinstance(cls_node, ast.ClassDef):
+            continue
+        for fn in ast.walk(cls_node):
+            if not isinstance(fn, (ast.FunctionDef, ast.AsyncFunctionDef)):
+                continue
+            for n in ast.walk(fn):
+                targets = n.targets if isinstance(n, ast.Assign) else [n.target] if isinstance(n, (ast.AugAssign, ast.AnnAssign)) else []
+                for t in targets:
+                    for t1 in ast.walk(t):
+                        if isinstance(t1, ast.Attribute) and t1.attr in ("synonyms", "keywords") and cls_node.name in ("_Tokenizer", "LLParser"):
+                            if not (cls_node is tk and fn is init and isinstance(n, ast.Assign) and len(n.targets) == 1 and t1 is n.targets[0]
+                                    and isinstance(t1.value, ast.Name) and t1.value.id == "self") or t1.attr in found:
+                                raise c04.ExtractError(f"{cls_node.name}.{fn.name}: unexpected assignment to .{t1.attr}")
+                            mode = _stored_as(n.value, t1.attr)
+                            if mode is None:
+                                raise c04.ExtractError(f"_Tokenizer.__init__: self.{t1.attr} = {ast.unparse(n.value)} not recognised")
+                            found[t1.attr] = mode
+    if set(found) != {"synonyms", "keywords"}:
+        raise c04.ExtractError("_Tokenizer.__init__: assignments of self.synonyms / self.keywords not found")
+    # LLParser.__init__ hands its own arguments to the tokenizer: as they are, or copies
+    lp_init = c04._meth(c04._cls(tree, "LLParser"), "__init__")
+    passed = {}
+    for n in ast.walk(lp_init):
+        if isinstance(n, ast.Call) and isinstance(n.func, ast.Name) and n.func.id == "_Tokenizer":
+            for k in n.keywords:
+                if k.arg in ("synonyms", "keywords"):
+                    if k.arg in passed:
+                        raise c04.ExtractError("LLParser.__init__: several _Tokenizer(...) calls")
+                    mode = _stored_as(k.value, k.arg)
+                    if mode is None:
+                        raise c04.ExtractError(f"LLParser.__init__: _Tokenizer(..., {k.arg}={ast.unparse(k.value)}) not recognised")
+                    passed[k.arg] = mode
+    if set(passed) != {"synonyms", "keywords"}:
+        raise c04.ExtractError("LLParser.__init__: the _Tokenizer(...) call with synonyms= and keywords= not found")
+    res = (found["synonyms"] == "alias" and passed["synonyms"] == "alias",
+           found["keywords"] == "alias" and passed["keywords"] == "alias")
+    _DICT_MODE[repo] = res
+    return res
+
+
+def _mode():
+    from harness.lib import implrun
+    return _dict_mode(implrun.REPO)
+
+
 def gen_consts(repo):
     """coq/C01/RunTok.v and the end-to-end theorems import the tokenizer model coq/C04/Model.v, which needs the constants
-    read from the current source by C04's extractor (fail closed there)"""
+    read from the current source by C04's extractor (fail closed there); gen/C01_Consts.v: whether the tokenizer keeps the
+    caller's synonyms / keywords dict objects or copies of them"""
     from harness.props import c04
-    return c04.gen_consts(repo)
+    out = dict(c04.gen_consts(repo))
+    syn_a, kw_a = _dict_mode(repo)
+    out["C01_Consts"] = ("(* generated from ak/llparser.py by harness/props/c01.py -- do not edit *)\n"
+                         "(* _Tokenizer.__init__ stores the caller's synonyms / keywords dict itself (true) or a copy (false) *)\n"
+                         f"Definition syn_aliased : bool := {SX.cbool(syn_a)}.\n"
+                         f"Definition kw_aliased : bool := {SX.cbool(kw_a)}.\n")
+    return out
 
 
 def _mutate_for_c01(rng, g):
@@ -243,28 +347,66 @@ def _cfg_skipset(cfg):
     return list(cfg["skip"])
 
 
+# characters at which str.splitlines() breaks a text but split('\n') -- what the tokenizer is documented to do -- does not
+# ('\r' alone included); all of them but none of ODD_OTHER are white space (str.isspace, \s)
+LINE_BREAKISH = ["\x0b", "\x0c", "\x1c", "\x1d", "\x1e", "\x85", "\u2028", "\u2029", "\r"]
+ODD_SPACE = ["\x1f", "\xa0", "\u3000", "\t"]
+ODD_OTHER = ["\u200b", "\xe9", "\x7f", "\\", "\ufeff"]
+
+
+def _odd_core(rng, lead_space=False):
+    """a piece of free text (no newline, no quote, no comment marker) that neither starts (unless lead_space) nor ends with
+    white space and has, mostly, characters in it that some str method but not the tokenizer treats as line ends"""
+    words = ["a", "b c", "x", "Q", "7", "if", "p q", "zz"]
+    out = [rng.choice(words)]
+    for _ in range(rng.randint(1, 3)):
+        r = rng.random()
+        sep = rng.choice(LINE_BREAKISH) if r < 0.7 else rng.choice(ODD_SPACE) if r < 0.8 else rng.choice(ODD_OTHER) if r < 0.9 else " "
+        if rng.random() < 0.2:
+            sep += rng.choice(LINE_BREAKISH + [" "])
+        out += [sep, rng.choice(words)]
+    return (rng.choice([" ", "\x0c", " \u2028"]) if lead_space and rng.random() < 0.4 else "") + "".join(out)
+
+
+def _odd_trail(rng):
+    """white space at the end of a line: removed by the tokenizer's rstrip() whatever it consists of"""
+    return rng.choice(["", "", " ", "\x0c", "\t\x0b", " \u2028", "\r", "\x1c "])
+
+
+def _rule_name(cfg, group, value, span):
+    """the documented naming rule: the pattern group, renamed by synonyms, then -- not for span tokens -- replaced by the
+    keyword token registered for (renamed name, value)"""
+    n = dict(cfg["syn"]).get(group, group)
+    if span:
+        return n
+    return {(a, b): c for a, b, c in cfg["kw"]}.get((n, value), n)
+
+
 def _gen_tokcfg(rng):
     """-> (cfg, info); info["prod"]: final token name -> [[lexeme, value, needs_line_break_after], ...] -- what the generator
     knows about the lexicon BY CONSTRUCTION (which class a lexeme belongs to, what it is renamed to, which (class, value)
-    pairs are keywords)"""
+    pairs are keywords); info["lexinfo"]: "name\0lexeme" -> [pattern group, is a span token]"""
     lex, syn, kw, spans = [], [], [], []
     prod = {}
+    lexinfo = {}
 
-    def add(name, lexeme, value=None, eol=False):
+    def add(name, lexeme, value=None, eol=False, group=None, span=False):
+        assert group is not None
         prod.setdefault(name, []).append([lexeme, lexeme if value is None else value, eol])
+        lexinfo[name + "\0" + lexeme] = [group, span]
 
     # white space: group SPACE, or a group WS that is (or is not) renamed to SPACE
     r = rng.random()
     if r < 0.6:
         lex.append(["SPACE", "space", ""])
-        space = "SPACE"
+        space = space_group = "SPACE"
     elif r < 0.9:
         lex.append(["WS", "space", ""])
         syn.append(["WS", "SPACE"])
-        space = "SPACE"
+        space, space_group = "SPACE", "WS"
     else:
         lex.append(["WS", "space", ""])
-        space = "WS"
+        space = space_group = "WS"
     # words: two pattern groups; both / one / none renamed to WORD
     wm = rng.choice(["both", "both", "lower", "plain"])
     if wm == "both":
@@ -300,9 +442,9 @@ def _gen_tokcfg(rng):
         kw.append([ug, "FOO", "UFOO"])
         decoys.append([un, "FOO", "FOO", False])
     for v in ["a", "ab", "foo", "x", "zz", "while", "if", "end"]:
-        add(lower_kw.get(v, ln), v)
+        add(lower_kw.get(v, ln), v, group=lg)
     for v in ["A", "FOO", "XY", "IF", "END"]:
-        add(upper_kw.get(v, un), v)
+        add(upper_kw.get(v, un), v, group=ug)
     # numbers
     if rng.random() < 0.65:
         ng, nn = "NUM", "NUM"
@@ -318,7 +460,7 @@ def _gen_tokcfg(rng):
         kw.append([ng, "7", "SEVEN"])          # decoy
         decoys.append([nn, "7", "7", False])
     for v in ["0", "7", "12", "345"]:
-        add(num_kw.get(v, nn), v)
+        add(num_kw.get(v, nn), v, group=ng)
     # quoted strings: the value excludes the quotes
     if rng.random() < 0.7:
         sm = rng.choice(["both", "dq", "plain"])
@@ -338,12 +480,14 @@ def _gen_tokcfg(rng):
             kw.append(["DQ", "x", "DQX"])      # decoy
             decoys.append([dn, '"x"', "x", False])
         skw = dkw if sn == dn else {}
-        for v in ["", "x", "x y", "a+b", "if"]:
-            add(dkw.get(v, dn), '"' + v + '"', v)
+        # a string may contain any character but its quote and the newline: form feeds, lone carriage returns, unicode
+        # line separators ... are part of the value
+        for v in ["", "x", "x y", "a+b", "if"] + [_odd_core(rng, True) + _odd_trail(rng) for _ in range(rng.randint(1, 3))]:
+            add(dkw.get(v, dn), '"' + v + '"', v, group="DQ")
         if "if" in lower_kw:
             decoys.append([dn, '"if"', "if", False])     # (WORD, if) is a keyword, (STRING, if) is not
-        for v in ["", "q", "x y", "if"]:
-            add(skw.get(v, sn), "'" + v + "'", v)
+        for v in ["", "q", "x y", "if"] + [_odd_core(rng, True) + _odd_trail(rng) for _ in range(rng.randint(0, 2))]:
+            add(skw.get(v, sn), "'" + v + "'", v, group="SQ")
     # one-character literals, renamed to themselves or not; '+' may be a keyword of its own class
     for g, ch in (("PLUS", "+"), ("SEMI", ";"), ("LP", "("), ("RP", ")")):
         if rng.random() < 0.7:
@@ -354,9 +498,26 @@ def _gen_tokcfg(rng):
                 n = ch
             if g == "PLUS" and rng.random() < 0.25:
                 kw.append([n, "+", "ADD"])
-                add("ADD", "+")
+                add("ADD", "+", group=g)
             else:
-                add(n, ch)
+                add(n, ch, group=g)
+    # the rest of the line as ONE token (a free-text field): never skipped by default, any character but the newline
+    if rng.random() < 0.55:
+        marker = rng.choice(["=", ":", "!"])
+        rn = "REST"
+        lex.append(["REST", "eol", marker])
+        if rng.random() < 0.4:
+            syn.append(["REST", "TEXT"])
+            rn = "TEXT"
+        rkw = {}
+        if rng.random() < 0.3:
+            kw.append([rn, marker + "on", "ON"])
+            rkw[marker + "on"] = "ON"
+        for c in ["", "on", " a b", "x  y"]:
+            add(rkw.get(marker + c, rn), marker + c, eol=True, group="REST")
+        for _ in range(rng.randint(2, 4)):
+            v = marker + _odd_core(rng, True)
+            add(rn, v + _odd_trail(rng), v, eol=True, group="REST")      # the line is rstripped before it is matched
     # comments: to the end of the line, and a span token
     comment_names = []
     if rng.random() < 0.7:
@@ -368,9 +529,12 @@ def _gen_tokcfg(rng):
             syn.append(["REM", "COMMENT"])
             cn = "COMMENT"
         for c in ["", " c", " x y", " if"]:
-            add(cn, marker + c, eol=True)
+            add(cn, marker + c, eol=True, group=cg)
+        for _ in range(rng.randint(1, 2)):
+            v = marker + _odd_core(rng, True)
+            add(cn, v + _odd_trail(rng), v, eol=True, group=cg)
         comment_names.append(cn)
-    if rng.random() < 0.5:
+    if rng.random() < 0.6:
         lex.append(["CML", "lit", "/*"])
         spans.append(["CML", "*/"])
         mn = "CML"
@@ -383,7 +547,14 @@ def _gen_tokcfg(rng):
         # (lexeme, value): the value is the body; the text of a line after the opener and of whole lines inside is taken
         # from the rstripped lines, blank parts are dropped
         for lx, v in (("/* c */", " c "), ("/**/", ""), ("/*c\nd*/", "c\nd"), ("/*\nq */", "q "), ("/*if*/", "if")):
-            add(mn, lx, v)
+            add(mn, lx, v, group="CML", span=True)
+        # bodies with characters that are line ends for str.splitlines only: they stay in the value, the lines of the body
+        # are the pieces between newlines (each rstripped, the last one cut at the closer and not stripped)
+        for _ in range(rng.randint(2, 3)):
+            parts = [_odd_core(rng, True) for _ in range(rng.choice([1, 1, 2, 3]))]
+            last = rng.choice(["", " ", "\x0c", " z\u2028"])
+            lx = "/*" + "".join(q + _odd_trail(rng) + "\n" for q in parts[:-1]) + parts[-1] + last + "*/"
+            add(mn, lx, "\n".join(parts) + last, group="CML", span=True)
         comment_names.append(mn)
     rng.shuffle(lex)
     cfg = {"lex": lex, "spans": spans, "syn": syn, "kw": kw, "skip": None}
@@ -412,8 +583,14 @@ def _gen_tokcfg(rng):
         renamed = [a for a, b in syn if a not in terms]
         skip = list(default) + ([rng.choice(renamed)] if renamed else [])   # a pattern group name that is no token name: GrammarError
     cfg["skip"] = skip
-    info = {"prod": prod, "space": space, "comments": comment_names, "skipset": _cfg_skipset(cfg), "decoys": decoys,
+    info = {"prod": prod, "space": space, "space_group": space_group, "comments": comment_names, "skipset": _cfg_skipset(cfg),
+            "decoys": decoys, "lexinfo": lexinfo,
             "bases": {"lower": (ln, lower_kw), "upper": (un, upper_kw), "num": (nn, num_kw)}}
+    # the generator's by-construction names agree with the documented naming rule
+    for n, entries in prod.items():
+        for lx, v, _ in entries:
+            g_, sp_ = lexinfo[n + "\0" + lx]
+            assert _rule_name(cfg, g_, v, sp_) == n, (n, lx, cfg)
     return cfg, info
 
 
@@ -435,48 +612,72 @@ def _glue_ok(a, b):
 
 
 def _render(rng, info, items, forced=None):
-    """items: [[name, value, lexeme, eol], ...] -> (text, all tokens [[name, value], ...] in order, white space and
-    comments included where they are tokens of the text); forced: a SKIPPED token [name, lexeme, value, eol] that
-    is put between two items (white space must be skipped then)"""
+    """items: [[name, value, lexeme, eol], ...] -> (text, all tokens [[name, value, pattern group, is span], ...] in order,
+    white space and comments included where they are tokens of the text -- skipped white space is not listed); forced: a
+    SKIPPED token [name, lexeme, value, eol] that is put between two items (white space must be skipped then)"""
     skip = set(info["skipset"])
     space = info["space"]
+    sgroup = info.get("space_group", space)
     space_skipped = space in skip
     prod = info["prod"]
+    lexinfo = info["lexinfo"]
     skipped_comments = [(n, e) for n in info["comments"] if n in skip for e in prod.get(n, [])]
     out, full = [], []
     need_nl = False
+
+    def tok(name, value, lexeme):
+        return [name, value] + list(lexinfo[name + "\0" + lexeme])
+
+    def ws_token(pieces, choices):
+        s = rng.choice(choices)
+        pieces.append(s)
+        full_extra.append([space, s, sgroup, False])
 
     def separator(prev, nxt, first):
         nonlocal need_nl
         pieces = []
         if space_skipped:
             if need_nl:
-                pieces.append(rng.choice(["\n", "\n  ", " \n", "\n\n", "\t\n "]))
+                pieces.append(rng.choice(["\n", "\n  ", " \n", "\n\n", "\t\n ", "\x0c\n", "\r\n", "\n\u2028"]))
             elif first:
-                pieces.append(rng.choice(["", "", " ", "\n", "  \n "]))
+                pieces.append(rng.choice(["", "", " ", "\n", "  \n ", "\x0c", "\r\n"]))
             elif prev is not None and nxt is not None and _glue_ok(prev, nxt) and rng.random() < 0.25:
                 pieces.append("")
             else:
-                pieces.append(rng.choice([" ", " ", "  ", "\t", "\n", " \n  ", "\n\n"]))
+                pieces.append(rng.choice([" ", " ", "  ", "\t", "\n", " \n  ", "\n\n", "\x0c", "\r\n", " \u2028", "\x0b\n", "\r",
+                                          "\x1d \x85"]))
             if (skipped_comments and rng.random() < 0.2) or force_here:
                 n, (lx, v, eol) = (forced[0], forced[1:]) if force_here else rng.choice(skipped_comments)
                 if not pieces[-1]:
                     pieces.append(" ")
                 pieces.append(lx)
-                full_extra.append([n, v])
+                full_extra.append(tok(n, v, lx))
                 pieces.append(rng.choice(["\n", "\n ", " \n"]) if eol else rng.choice([" ", "\n", "  "]))
         else:
+            # white space is a token of its own: between two tokens of a line and at the start of a line -- never at the
+            # end of a line (the tokenizer strips the lines on the right) -- whatever white space characters it is made of
+            lead = [" ", "  ", "\t", "\x0c", " \u2028", "\r"]
             if need_nl:
                 pieces.append("\n")
+                if nxt is not None and rng.random() < 0.25:
+                    ws_token(pieces, lead)
             elif first:
-                pieces.append("")
+                if nxt is not None and rng.random() < 0.2:
+                    ws_token(pieces, lead)
             elif prev is not None and nxt is not None and _glue_ok(prev, nxt) and rng.random() < 0.3:
                 pieces.append("")
             else:
-                s = rng.choice([" ", " ", "  ", "\n"])
-                pieces.append(s)
-                if s != "\n":
-                    full_extra.append([space, s])
+                r = rng.random()
+                if r < 0.55:
+                    ws_token(pieces, [" ", " ", "  ", "\t", "\x0c", "\r", " \x0b", "\u2028", "\x1c ", "\x85"])
+                elif r < 0.8:
+                    pieces.append("\n")
+                elif r < 0.9:
+                    pieces.append(rng.choice([" ", "\x0c", "\t ", "\r", "\u2029 "]) + "\n")      # stripped: no token
+                else:
+                    pieces.append("\n")
+                    if nxt is not None:
+                        ws_token(pieces, lead)
         need_nl = False
         return "".join(pieces)
 
@@ -488,7 +689,7 @@ def _render(rng, info, items, forced=None):
         out.append(separator(prev, lexeme, i == 0))
         full += full_extra
         out.append(lexeme)
-        full.append([name, value])
+        full.append(tok(name, value, lexeme))
         need_nl = eol
         prev = lexeme
     # tail: trailing white space is stripped by the tokenizer; a skipped comment may follow
@@ -497,7 +698,7 @@ def _render(rng, info, items, forced=None):
     if space_skipped:
         out.append(separator(prev, None, not items))
     elif rng.random() < 0.3:
-        out.append("\n")
+        out.append(rng.choice(["\n", "\n", " ", "\x0c\n", " \n\n", "\u2028"]))
     full += full_extra
     return "".join(out), full
 
@@ -615,13 +816,17 @@ def _gen_tok_session(rng):
 
     def add_text(items, lexerr=False, forced=None):
         text, full = _render(rng, info, items, forced)
-        toks = [t for t in full if t[0] not in set(info["skipset"])]
+        toks = [t[:2] for t in full if t[0] not in set(info["skipset"])]
         if lexerr:
-            # a character no pattern matches, on a line of its own (not inside a comment or a string)
-            bad = rng.choice(["@", "é", "$", "~"])
-            text = (bad + "\n" + text) if rng.random() < 0.3 else (text + "\n" + bad + rng.choice(["", " a", "\n"]))
-            toks = None
-        texts.append({"text": text, "toks": toks})
+            if cfg["spans"] and rng.random() < 0.4:
+                # a span token that is never closed
+                text = text + "\n" + rng.choice(["/* zz", "/*", "/* a\n b\x0c*"])
+            else:
+                # a character no pattern matches, on a line of its own (not inside a comment or a string)
+                bad = rng.choice(["@", "é", "$", "~", "\x7f", "\u200b"])
+                text = (bad + "\n" + text) if rng.random() < 0.3 else (text + "\n" + bad + rng.choice(["", " a", "\n"]))
+            toks = full = None
+        texts.append({"text": text, "toks": toks, "full": full})
         return len(texts) - 1
 
     names_list = [[n for n, _ in inp] for inp in L.gen_inputs(rng, g, 7)]
@@ -629,7 +834,7 @@ def _gen_tok_session(rng):
         items = _pick_items(rng, info, names)
         if items is None:
             continue
-        add_text(items, lexerr=rng.random() < 0.04)
+        add_text(items, lexerr=rng.random() < 0.05)
         if rng.random() < 0.5:
             c = _confuse(rng, info, items)
             if c is not None:
@@ -663,7 +868,148 @@ def _gen_tok_session(rng):
         if items is not None:
             extra.append([add_text(items), s])
     calls = _gen_calls(rng, g, len(texts), extra)
-    return {"kind": "session", "g": g, "cfg": cfg, "texts": texts, "calls": calls, "second": _gen_second(rng, g, calls)}
+    case = {"kind": "session", "g": g, "cfg": cfg, "texts": texts, "calls": calls, "second": _gen_second(rng, g, calls)}
+    _gen_args_and_changes(rng, case, info)
+    return case
+
+
+# ------------------------------------------------------------------ the caller's argument objects, changed in place later
+# case["args"] = {"skip": how an explicit skip_tokens is passed: "set" | "list" | "tuple" | "frozenset",
+#                 "keep": None | [symbols]   keep_symbols (a set; only cleanup reads it -- it must stay as the caller made it)}
+# case["change"] = {"ops": [...], "cfg2": the configuration with the CHANGED synonyms / keywords | None,
+#                   "after": calls on the first parser, "after2": calls on the second parser}
+# ops (applied in this order to the very objects the constructor(s) received, after all earlier calls):
+#   ["skip_add", name] ["skip_del", name]                    (set / list containers only)
+#   ["prod_append", nt, alt] ["prod_pop", nt] ["prod_reverse", nt] ["prod_clear", nt] ["prod_new", nt, alts] ["prod_del", nt]
+#   ["kw_set", name, value, token] ["kw_del", name, value] ["syn_set", group, name] ["syn_del", group]
+#   ["span_clear"] ["keep_add", name]
+def _gen_args_and_changes(rng, case, info):
+    g, cfg = case["g"], case["cfg"]
+    nts = [nt for nt, _ in g["prods"]]
+    skip = ["SPACE"] if cfg is None else cfg["skip"]
+    args = {"skip": rng.choice(["set", "set", "set", "list", "tuple", "frozenset"]),
+            "keep": sorted(rng.sample(nts, rng.randint(0, min(2, len(nts))))) if rng.random() < 0.3 else None}
+    if cfg is None:
+        args["explicit_skip"] = rng.random() < 0.6        # plain sessions: skip_tokens={'SPACE'} passed explicitly (= the default)
+    case["args"] = args
+    case["change"] = None
+    if rng.random() < 0.3:
+        return
+    texts = case["texts"]
+    ops1, ops2 = [], []
+    explicit = (cfg is not None and cfg["skip"] is not None) or (cfg is None and args["explicit_skip"])
+    used = sorted({t[0] for x in texts if x["toks"] for t in x["toks"]})       # non-skipped token names that occur
+    if explicit and args["skip"] in ("set", "list") and rng.random() < 0.85:
+        r = rng.random()
+        if used and r < 0.75:
+            # a token name that occurs in the texts joins the caller's skip container
+            for n in rng.sample(used, min(len(used), rng.randint(1, 2))):
+                ops1.append(["skip_add", n])
+        elif skip and cfg is not None:
+            # (plain sessions: the model gets token lists without white space, so SPACE stays skipped)
+            ops1.append(["skip_del", rng.choice(sorted(skip))])
+        if used and rng.random() < 0.2:
+            ops1.append(["skip_add", rng.choice(used)])
+    if args["keep"] is not None and rng.random() < 0.5:
+        ops1.append(["keep_add", rng.choice(nts)])
+    if cfg is not None and cfg["spans"] and rng.random() < 0.3:
+        ops1.append(["span_clear"])
+    # one more parser from the caller's objects as they are now (skip container extended / shrunk, span matchers emptied):
+    # the productions / synonyms / keywords objects are changed only afterwards, so its grammar is the session's
+    third = None
+    if any(o[0] != "keep_add" for o in ops1) and rng.random() < 0.75:
+        third = {"smart": g["smart"] if rng.random() < 0.5 else not g["smart"],
+                 "start": g["start"] if rng.random() < 0.7 else rng.choice(nts)}
+    if rng.random() < 0.5:
+        nt = rng.choice(nts)
+        r = rng.random()
+        terms = g["terms"] or ["WORD"]
+        if r < 0.3:
+            ops2.append(["prod_append", nt, [rng.choice(terms)]])
+        elif r < 0.45:
+            ops2.append(["prod_pop", nt])
+        elif r < 0.6:
+            ops2.append(["prod_reverse", nt])
+        elif r < 0.7:
+            ops2.append(["prod_clear", nt])
+        elif r < 0.85:
+            ops2.append(["prod_new", "NEWSYM", [[rng.choice(terms)], []]])
+        else:
+            ops2.append(["prod_del", nt])
+    cfg2 = None
+    if cfg is not None:
+        # synonyms / keywords dicts: entries for tokens that occur in the texts (never the white space class: skipped white
+        # space is not listed in the generator's token lists)
+        occurring = [t for x in texts if x["full"] for t in x["full"] if t[2] != info["space_group"]]
+        terms = _cfg_terminals(cfg)
+        syn, kw = [list(e) for e in cfg["syn"]], [list(e) for e in cfg["kw"]]
+        touched = False
+        if kw and occurring and rng.random() < 0.5:
+            for _ in range(rng.randint(1, 2)):
+                r = rng.random()
+                t = rng.choice(occurring)
+                base = dict(syn).get(t[2], t[2])
+                if r < 0.6 and not t[3]:
+                    # a further keyword: an occurring (class, value) becomes a token the grammar knows (or a new name)
+                    k = rng.choice([x for x in (g["terms"] or terms)] + ["NEWKW"])
+                    ops2.append(["kw_set", base, t[1], k])
+                    kw = [e for e in kw if (e[0], e[1]) != (base, t[1])] + [[base, t[1], k]]
+                    touched = True
+                elif kw:
+                    e = rng.choice(kw)
+                    ops2.append(["kw_del", e[0], e[1]])
+                    kw = [x for x in kw if x is not e]
+                    touched = True
+        if syn and occurring and rng.random() < 0.4:
+            t = rng.choice(occurring)
+            grp = t[2]
+            if rng.random() < 0.6:
+                n = rng.choice(g["terms"] or terms)
+                ops2.append(["syn_set", grp, n])
+                syn = [[a, (n if a == grp else b)] for a, b in syn] + ([] if grp in dict(syn) else [[grp, n]])
+            elif grp in dict(syn):
+                ops2.append(["syn_del", grp])
+                syn = [e for e in syn if e[0] != grp]
+            else:
+                ops2.append(["syn_set", grp, grp + "X"])
+                syn = syn + [[grp, grp + "X"]]
+            touched = True
+        if touched:
+            cfg2 = dict(cfg, syn=syn, kw=kw)
+    if not ops1 and not ops2:
+        return
+    # the calls made afterwards: every text once more, then some of the earlier calls (also those with a start symbol)
+    after = [[i, None] for i in range(len(texts))]
+    after += [list(c) for c in case["calls"] if c[1] is not None and rng.random() < 0.5][:4]
+    if len(after) > 12:
+        after = rng.sample(after, 12)
+    after2 = []
+    if case.get("second"):
+        after2 = [list(c) for c in after if rng.random() < 0.6][:8]
+    if third:
+        third["calls"] = [list(c) for c in after if rng.random() < 0.8][:10]
+        third["after"] = [list(c) for c in third["calls"] if rng.random() < 0.6][:6] if ops2 else []
+    case["change"] = {"ops1": ops1, "third": third, "ops2": ops2, "cfg2": cfg2, "after": after, "after2": after2}
+
+
+def _third_cfg(case):
+    """what the third parser is made from: -> (configuration with the caller's CHANGED skip container / span matchers | None
+    for the plain tokenizer, the names the plain tokenizer's parser skips besides SPACE)"""
+    ch = case["change"]
+    cfg = case["cfg"]
+    skip = list(["SPACE"] if cfg is None else cfg["skip"] or [])
+    kind = (case.get("args") or {}).get("skip", "set")
+    spans = None if cfg is None else cfg["spans"]
+    for op in ch["ops1"]:
+        if op[0] == "skip_add" and (kind == "list" or op[1] not in skip):
+            skip.append(op[1])
+        elif op[0] == "skip_del" and op[1] in skip:
+            skip.remove(op[1])
+        elif op[0] == "span_clear":
+            spans = []
+    if cfg is None:
+        return None, [n for n in skip if n != "SPACE"]
+    return dict(cfg, skip=skip if cfg["skip"] is not None else None, spans=spans), []
 
 
 def _gen_plain_session(rng, i):
@@ -675,38 +1021,65 @@ def _gen_plain_session(rng, i):
             g = _mutate_for_c01(rng, g)
     texts, extra = [], []
     for inp in L.gen_inputs(rng, g, 8):
-        texts.append({"text": " ".join(v for _, v in inp), "toks": [list(x) for x in inp]})
+        texts.append({"text": " ".join(v for _, v in inp), "toks": [list(x) for x in inp], "full": None})
     nts = [nt for nt, _ in g["prods"]]
     for _ in range(rng.randint(0, 3)):
         s = rng.choice(nts)
         g2 = dict(g)
         g2["start"] = s
         inp = [[t, t + (str(rng.randint(0, 99)) if rng.random() < 0.4 else "")] for t in L.gen_sentence(rng, g2)]
-        texts.append({"text": " ".join(v for _, v in inp), "toks": inp})
+        texts.append({"text": " ".join(v for _, v in inp), "toks": inp, "full": None})
         extra.append([len(texts) - 1, s])
     calls = _gen_calls(rng, g, len(texts), extra)
-    return {"kind": "session", "g": g, "cfg": None, "texts": texts, "calls": calls, "second": _gen_second(rng, g, calls)}
+    case = {"kind": "session", "g": g, "cfg": None, "texts": texts, "calls": calls, "second": _gen_second(rng, g, calls)}
+    _gen_args_and_changes(rng, case, None)
+    return case
 
 
 def _is_session(case):
     return case.get("kind") == "session"
 
 
+def _snapshot(x):
+    """a structural picture of an argument object: container types, order of dict keys and list items, set members"""
+    if isinstance(x, dict):
+        return ["dict", [[_snapshot(k), _snapshot(v)] for k, v in x.items()]]
+    if isinstance(x, (set, frozenset)):
+        return [type(x).__name__, sorted(repr(e) for e in x)]
+    if isinstance(x, (list, tuple)):
+        return [type(x).__name__, [_snapshot(e) for e in x]]
+    return repr(x)
+
+
 def _impl_session(case):
     from ak import llparser
     g = case["g"]
+    args = case.get("args") or {}
+    # THE argument objects: made once, handed to every constructor call of the session, changed in place later
     prods = {nt: [tuple(a) if a else None for a in alts] for nt, alts in g["prods"]}
     cfg = case["cfg"]
     kwargs = {}
     if cfg is None:
         tstr = L.tokenizer_str(g["terms"])
+        skip = ["SPACE"] if args.get("explicit_skip") else None
     else:
         tstr = _tok_str(cfg)
         kwargs = {"synonyms": dict(cfg["syn"]) or None,
                   "keywords": {(n, v): k for n, v, k in cfg["kw"]} or None,
                   "span_matchers": _span_matchers(cfg) or None}
-        if cfg["skip"] is not None:
-            kwargs["skip_tokens"] = set(cfg["skip"])
+        skip = cfg["skip"]
+    if skip is not None:
+        kwargs["skip_tokens"] = {"set": set, "list": list, "tuple": tuple, "frozenset": frozenset}[args.get("skip", "set")](skip)
+    if args.get("keep") is not None:
+        kwargs["keep_symbols"] = set(args["keep"])
+    pool = dict(kwargs, productions=prods)
+    before = {k: _snapshot(v) for k, v in pool.items()}
+    modified = []
+
+    def check_args(when):
+        for k, v in pool.items():
+            if _snapshot(v) != before[k] and k not in [m[0] for m in modified]:
+                modified.append([k, when])
 
     def make(smart, start):
         try:
@@ -715,6 +1088,8 @@ def _impl_session(case):
             if type(e).__name__ == "Hang":
                 raise
             return None, SX.exc_name(e)
+        finally:
+            check_args("constructor")
 
     def run_calls(p, calls, out):
         for i, s in calls:
@@ -731,20 +1106,23 @@ def _impl_session(case):
                         out.append(["err", "NotRun"])
                     return False
                 out.append(["err", SX.exc_name(e)])
+        check_args("parse")
         return True
 
     p, e = make(g["smart"], g["start"])
     if p is None:
-        return {"ctor": ["err", e]}
+        return {"ctor": ["err", e], "modified": modified}
     out = {"ctor": ["ok"], "amb": bool(p.is_ambiguous()), "res": [],
            "fg": [[s, [[r.symbol, list(r.production), r.sort_n] for r in rr]] for s, rr in p.prods_map.items()],
-           "sfxs": sorted(p._suffix_symbols), "terminals": sorted(p.terminals), "second": None}
+           "sfxs": sorted(p._suffix_symbols), "terminals": sorted(p.terminals), "second": None,
+           "modified": modified, "res_after": [], "res_after2": []}
     if not run_calls(p, case["calls"], out["res"]):
         out["hang_at"] = len(case["calls"])
         out["amb_after"] = out["amb"]
         return out
     out["amb_after"] = bool(p.is_ambiguous())       # asked again after the calls: the answer must not depend on the history
     sec = case.get("second")
+    p2 = None
     if sec:
         p2, e2 = make(sec["smart"], sec["start"])
         if p2 is None:
@@ -753,7 +1131,72 @@ def _impl_session(case):
             out["second"] = {"ctor": ["ok"], "amb": bool(p2.is_ambiguous()), "res": []}
             run_calls(p2, sec["calls"], out["second"]["res"])
             out["second"]["amb_after"] = bool(p2.is_ambiguous())
+    ch = case.get("change")
+    if ch:
+        # the caller goes on using ITS objects: the parsers made from them must not notice
+        for op in ch["ops1"]:
+            _apply_op(op, prods, kwargs)
+        before.update({k: _snapshot(v) for k, v in pool.items()})      # from now on the objects must stay as the caller left them
+        p3 = None
+        th = ch.get("third")
+        if th:
+            p3, e3 = make(th["smart"], th["start"])
+            if p3 is None:
+                out["third"] = {"ctor": ["err", e3]}
+            else:
+                out["third"] = {"ctor": ["ok"], "amb": bool(p3.is_ambiguous()), "res": [], "res_after": []}
+                run_calls(p3, th["calls"], out["third"]["res"])
+        for op in ch["ops2"]:
+            _apply_op(op, prods, kwargs)
+        before.update({k: _snapshot(v) for k, v in pool.items()})
+        run_calls(p, ch["after"], out["res_after"])
+        if p2 is not None:
+            run_calls(p2, ch["after2"], out["res_after2"])
+        if p3 is not None:
+            run_calls(p3, th["after"], out["third"]["res_after"])
     return out
+
+
+def _apply_op(op, prods, kwargs):
+    k = op[0]
+    if k in ("skip_add", "skip_del"):
+        c = kwargs.get("skip_tokens")
+        if isinstance(c, set):
+            (c.add if k == "skip_add" else c.discard)(op[1])
+        elif isinstance(c, list):
+            if k == "skip_add":
+                c.append(op[1])
+            elif op[1] in c:
+                c.remove(op[1])
+    elif k == "prod_append":
+        prods[op[1]].append(tuple(op[2]))
+    elif k == "prod_pop":
+        if prods[op[1]]:
+            prods[op[1]].pop()
+    elif k == "prod_reverse":
+        prods[op[1]].reverse()
+    elif k == "prod_clear":
+        del prods[op[1]][:]
+    elif k == "prod_new":
+        prods[op[1]] = [tuple(a) if a else None for a in op[2]]
+    elif k == "prod_del":
+        prods.pop(op[1], None)
+    elif k == "kw_set":
+        kwargs["keywords"][(op[1], op[2])] = op[3]
+    elif k == "kw_del":
+        kwargs["keywords"].pop((op[1], op[2]), None)
+    elif k == "syn_set":
+        kwargs["synonyms"][op[1]] = op[2]
+    elif k == "syn_del":
+        kwargs["synonyms"].pop(op[1], None)
+    elif k == "span_clear":
+        if kwargs.get("span_matchers"):
+            kwargs["span_matchers"].clear()
+    elif k == "keep_add":
+        if kwargs.get("keep_symbols") is not None:
+            kwargs["keep_symbols"].add(op[1])
+    else:
+        raise ValueError(op)
 
 
 def _c_calls(calls):
@@ -788,6 +1231,14 @@ def _c_sx(x):
     return "SL [" + "; ".join(_c_sx(e) for e in x) + "]"
 
 
+def _c_cfg(cfg):
+    lex = _c_list((f"({SX.cstr(n)}, {_c_pat(k, a)})" for n, k, a in cfg["lex"]), "(list Z * pat)")
+    spans = _c_list((f"({SX.cstr(a)}, {SX.cstr(c)})" for a, c in cfg["spans"]), "(list Z * list Z)")
+    syn = _c_list((f"({SX.cstr(a)}, {SX.cstr(b)})" for a, b in cfg["syn"]), "(list Z * list Z)")
+    kw = _c_list((f"({SX.cstr(n)}, ({SX.cstr(v)}, {SX.cstr(k)}))" for n, v, k in cfg["kw"]), "(list Z * (list Z * list Z))")
+    return f"(mkCfg {lex} {spans} {syn} {kw})"
+
+
 def _coq_session(case, obs):
     g = case["g"]
     cfg = case["cfg"]
@@ -800,12 +1251,8 @@ def _coq_session(case, obs):
         texts = _c_list(("(SToks " + _c_list((f"({SX.cstr(n)}, {SX.cstr(v)})" for n, v in t["toks"]), "(list Z * list Z)") + ")"
                          for t in case["texts"]), "source")
     else:
-        lex = _c_list((f"({SX.cstr(n)}, {_c_pat(k, a)})" for n, k, a in cfg["lex"]), "(list Z * pat)")
-        spans = _c_list((f"({SX.cstr(a)}, {SX.cstr(c)})" for a, c in cfg["spans"]), "(list Z * list Z)")
-        syn = _c_list((f"({SX.cstr(a)}, {SX.cstr(b)})" for a, b in cfg["syn"]), "(list Z * list Z)")
-        kw = _c_list((f"({SX.cstr(n)}, ({SX.cstr(v)}, {SX.cstr(k)}))" for n, v, k in cfg["kw"]), "(list Z * (list Z * list Z))")
         skip = "(@None (list (list Z)))" if cfg["skip"] is None else "(Some " + _c_list((SX.cstr(s) for s in cfg["skip"]), "(list Z)") + ")"
-        tk = f"(Some (mkCfg {lex} {spans} {syn} {kw}, {skip}))"
+        tk = f"(Some ({_c_cfg(cfg)}, {skip}))"
         terms = "(@nil (list Z))"
         texts = _c_list((f"(SText {SX.cstr(t['text'])})" for t in case["texts"]), "source")
     sec = case.get("second")
@@ -813,8 +1260,27 @@ def _coq_session(case, obs):
         second = f"(Some ({SX.cbool(sec['smart'])}, {SX.cstr(sec['start'])}, {_c_calls(sec['calls'])}))"
     else:
         second = "(@None (bool * list Z * list (nat * option (list Z))))"
+    ch = case.get("change") or {}
+    c2 = ch.get("cfg2")
+    if c2:
+        cfg2 = "(Some " + _c_cfg(c2) + ")"
+    else:
+        cfg2 = "(@None lexcfg)"
+    th = ch.get("third")
+    if th:
+        cfg3, xskip = _third_cfg(case)
+        if cfg3 is None:
+            tk3 = "(@None (lexcfg * option (list (list Z))))"
+        else:
+            skip3 = "(@None (list (list Z)))" if cfg3["skip"] is None else "(Some " + _c_list((SX.cstr(x) for x in cfg3["skip"]), "(list Z)") + ")"
+            tk3 = f"(Some ({_c_cfg(cfg3)}, {skip3}))"
+        third = (f"(Some ({tk3}, {_c_list((SX.cstr(x) for x in xskip), '(list Z)')}, {SX.cbool(th['smart'])}, {SX.cstr(th['start'])}, "
+                 f"{_c_calls(th['calls'])}, {_c_calls(th['after'])}))")
+    else:
+        third = "(@None (option (lexcfg * option (list (list Z))) * list (list Z) * bool * list Z * list (nat * option (list Z)) * list (nat * option (list Z))))"
     return (f"Session {tk} {ug} {terms} {SX.cbool(g['smart'])} {SX.cstr(g['start'])} {L.FUEL}%nat {texts} "
-            f"{_c_calls(case['calls'])} {second} ({_c_sx(_observation_session(case, obs))})")
+            f"{_c_calls(case['calls'])} {second} {cfg2} {_c_calls(ch.get('after') or [])} {_c_calls(ch.get('after2') or [])} "
+            f"{third} ({_c_sx(_observation_session(case, obs))})")
 
 
 def _sx_results(res):
@@ -826,6 +1292,32 @@ def _expected_session(case, obs):
     return "()"
 
 
+def _toks_after(case):
+    """the non-skipped tokens of every text after the caller changed the argument objects in place, as the generator knows
+    them: the same as before -- except where the source says that the tokenizer kept the caller's own synonyms / keywords
+    dict (gen/C01_Consts.v): there the names follow the changed dict by the documented naming rule; the skip set is always
+    the one the constructor was given.  -> [None (LexicalError) | [[name, value], ...]]"""
+    ch = case.get("change") or {}
+    cfg, cfg2 = case["cfg"], ch.get("cfg2")
+    if cfg is None or not cfg2:
+        return [t["toks"] for t in case["texts"]]
+    syn_a, kw_a = _mode()
+    eff = dict(cfg, syn=cfg2["syn"] if syn_a else cfg["syn"], kw=cfg2["kw"] if kw_a else cfg["kw"])
+    skip = set(_cfg_skipset(cfg))
+    out = []
+    for t in case["texts"]:
+        if t["toks"] is None:
+            out.append(None)
+        else:
+            named = [[_rule_name(eff, grp, v, sp), v] for _, v, grp, sp in t["full"]]
+            out.append([x for x in named if x[0] not in skip])
+    return out
+
+
+def _sx_toks(toks):
+    return SX.err("LexicalError") if toks is None else SX.ok([[SX.s(n), SX.s(v)] for n, v in toks])
+
+
 def _observation_session(case, obs):
     """the canonical observation (nested lists of ints) of what the implementation did, plus the tokens of every text as
     the generator knows them"""
@@ -834,46 +1326,108 @@ def _observation_session(case, obs):
     g = case["g"]
     hyps = not py_fact_problems(g["prods"], g["start"], obs["fg"], obs["sfxs"], obs["terminals"])
     # the tokens of every text as the GENERATOR knows them (the model tokenises the text itself)
-    toks = [SX.err("LexicalError") if t["toks"] is None else SX.ok([[SX.s(n), SX.s(v)] for n, v in t["toks"]])
-            for t in case["texts"]]
+    toks = [_sx_toks(t["toks"]) for t in case["texts"]]
     second = []
     if obs.get("second"):
         o2 = obs["second"]
         second = SX.err(o2["ctor"][1]) if o2["ctor"][0] == "err" else [0, o2["amb"], _sx_results(o2["res"]), o2["amb_after"]]
-    return [0, obs["amb"], hyps, toks, _sx_results(obs["res"]), obs["amb_after"], second]
+    ch = case.get("change") or {}
+    changed = bool(ch.get("after") or ch.get("after2") or ch.get("third"))
+    toks_after = [_sx_toks(t) for t in _toks_after(case)] if changed else []
+    third = []
+    if obs.get("third"):
+        o3 = obs["third"]
+        third = SX.err(o3["ctor"][1]) if o3["ctor"][0] == "err" else [0, o3["amb"], _sx_results(o3["res"]), _sx_results(o3["res_after"])]
+    return [0, obs["amb"], hyps, toks, _sx_results(obs["res"]), obs["amb_after"], second,
+            not obs.get("modified"), toks_after, _sx_results(obs.get("res_after") or []), _sx_results(obs.get("res_after2") or []), third]
+
+
+ARGS_SIG = "constructor-argument-objects"
 
 
 def _oracle_session(case, obs):
     out = []
+    g = case["g"]
+    what = f"grammar {g['prods']} smart={g['smart']}" + (f" tokenizer {json.dumps(case['cfg'])}" if case["cfg"] else "")
+    if obs.get("modified"):
+        out.append((ARGS_SIG, f"{what}: the library changed the caller's argument object(s) {obs['modified']} (argument, during)"))
     if obs["ctor"][0] != "ok":
         return out
-    g = case["g"]
     prods = {nt: alts for nt, alts in g["prods"]}
-    what = f"grammar {g['prods']} smart={g['smart']}" + (f" tokenizer {json.dumps(case['cfg'])}" if case["cfg"] else "")
 
-    def judge(calls, res, ctor_start, label):
+    def judge(calls, res, ctor_start, label, toks_of, earlier=None):
         for (i, s), r in zip(calls, res):
             if r[0] != "ok":
                 continue
+            # a wrong tree after the caller changed its objects is blamed on that change when the same call had another answer before
+            sig = ARGS_SIG if earlier is not None and earlier.get((i, s), r) != r else "invalid-tree"
             start = ctor_start if s is None else s
             t = case["texts"][i]
             if "__" in start:
                 # fixed finding (/repo 2909322): a per-call start symbol with '__' must be rejected, never answered with a tree
                 out.append((HELPER_START_SIG, f"{what}: parse({t['text']!r}, start_symbol_name={start!r}) returned a tree rooted at {r[1][1]!r}"))
                 continue
-            if t["toks"] is None:
-                out.append(("invalid-tree", f"{what}: {label} parse({t['text']!r}) returned a tree although the text contains a character no token matches"))
+            if toks_of[i] is None:
+                out.append((sig, f"{what}: {label} parse({t['text']!r}) returned a tree although the text contains a character no token matches / an unclosed span"))
                 continue
-            probs = L.check_derivation(prods, start, r[1], t["toks"])
+            probs = L.check_derivation(prods, start, r[1], toks_of[i])
             if probs:
-                out.append(("invalid-tree", f"{what}: {label} call parse({t['text']!r}, start_symbol_name={s!r}): " + "; ".join(probs[:3])))
-    judge(case["calls"], obs["res"], g["start"], "first parser,")
-    if obs.get("second") and obs["second"]["ctor"][0] == "ok":
-        judge(case["second"]["calls"], obs["second"]["res"], case["second"]["start"], "second parser (same productions object),")
+                out.append((sig, f"{what}: {label} call parse({t['text']!r}, start_symbol_name={s!r}): " + "; ".join(probs[:3])))
+    toks0 = [t["toks"] for t in case["texts"]]
+    judge(case["calls"], obs["res"], g["start"], "first parser,", toks0)
+    sec_ok = obs.get("second") and obs["second"]["ctor"][0] == "ok"
+    if sec_ok:
+        judge(case["second"]["calls"], obs["second"]["res"], case["second"]["start"], "second parser (same productions object),", toks0)
+    ch = case.get("change")
+    if ch:
+        # the grammar and the skip set are those the constructor was given, whatever the caller did to its objects later
+        toks1 = _toks_after(case)
+        label = f"after the caller changed its argument objects in place ({ch['ops1'] + ch['ops2']}),"
+        judge(ch["after"], obs.get("res_after") or [], g["start"], "first parser, " + label, toks1,
+              {(i, s): r for (i, s), r in zip(case["calls"], obs["res"])})
+        if sec_ok:
+            judge(ch["after2"], obs.get("res_after2") or [], case["second"]["start"], "second parser, " + label, toks1,
+                  {(i, s): r for (i, s), r in zip(case["second"]["calls"], obs["second"]["res"])})
+        th = ch.get("third")
+        if th and obs.get("third") and obs["third"]["ctor"][0] == "ok":
+            # the parser made from the changed skip container: its leaves are the tokens IT was told not to skip
+            t3a, t3b = _toks_third(case, False), _toks_third(case, True)
+            if t3a is not None:
+                lab3 = f"third parser (made after {ch['ops1']}),"
+                judge(th["calls"], obs["third"]["res"], th["start"], lab3, t3a)
+                judge(th["after"], obs["third"]["res_after"], th["start"], lab3 + f" after {ch['ops2']},", t3b,
+                      {(i, s): r for (i, s), r in zip(th["calls"], obs["third"]["res"])})
     probs = py_fact_problems(g["prods"], g["start"], obs["fg"], obs["sfxs"], obs["terminals"])
     if probs:
         out.append(("factorization-invalid", f"{what}: prods_map {[(s, [r[1] for r in rr]) for s, rr in obs['fg']]} "
                     f"suffix symbols {obs['sfxs']}: " + "; ".join(probs[:3])))
+    return out
+
+
+def _toks_third(case, after):
+    """the non-skipped tokens of every text for the third parser, from the generator's token lists; None when they cannot be
+    told from those lists (the span matchers were emptied; white space that the lists do not record is no longer skipped)"""
+    ch = case["change"]
+    cfg = case["cfg"]
+    cfg3, xskip = _third_cfg(case)
+    if cfg is None:
+        return [None if t["toks"] is None else [x for x in t["toks"] if x[0] not in xskip] for t in case["texts"]]
+    if cfg3["spans"] != cfg["spans"]:
+        return None
+    skip0, skip3 = set(_cfg_skipset(cfg)), set(_cfg_skipset(cfg3))
+    if skip0 - skip3:
+        return None          # something skipped so far is a token now: white space is not in the lists, comments only partly
+    eff = cfg
+    if after and ch.get("cfg2"):
+        syn_a, kw_a = _mode()
+        eff = dict(cfg, syn=ch["cfg2"]["syn"] if syn_a else cfg["syn"], kw=ch["cfg2"]["kw"] if kw_a else cfg["kw"])
+    out = []
+    for t in case["texts"]:
+        if t["toks"] is None:
+            out.append(None)
+        else:
+            named = [[_rule_name(eff, grp, v, sp), v] for _, v, grp, sp in t["full"]]
+            out.append([x for x in named if x[0] not in skip3])
     return out
 
 
@@ -1045,10 +1599,10 @@ def oracle(case, obs):
     if "__hang__" in obs:
         return [("ctor-hang", "constructor/parse batch did not return")]
     out = []
-    if obs["ctor"][0] != "ok":
-        return out
     if _is_session(case):
         return _dedup(_oracle_session(case, obs))
+    if obs["ctor"][0] != "ok":
+        return out
     g = case["g"]
     prods = {nt: alts for nt, alts in g["prods"]}
     # a user grammar that mentions a reserved helper name is the known finding, anything else is new
